@@ -4,6 +4,7 @@ import (
 	"encoding/json"
 	"fmt"
 	"github.com/GuanceCloud/platypus/pkg/token"
+	"math"
 	"os"
 	"path/filepath"
 	"reflect"
@@ -1095,6 +1096,77 @@ func TestCollectionDefaults(t *testing.T) {
 	evid.Exhaustive("declared default (collections with integers, typed collections, scalars) x call shape with typed parameters", n)
 }
 
+// TestRecheckAgainstOtherSignature: a host that checks a loaded script again - against another function table, which
+// rejects it - still has the script it loaded: running it binds every call as it was bound at load. (A second check
+// that accepts the call binds it anew, to the table of that check; that is not examined here.)
+func TestRecheckAgainstOtherSignature(t *testing.T) {
+	mkFn := func(l []pdef, rec *[]string) *runtimev2.Fn {
+		params := mkParams(l)
+		return &runtimev2.Fn{
+			CallCheck: func(ctx *runtimev2.Task, e *ast.CallExpr) *errchain.PlError {
+				return runtimev2.CheckPassParam(ctx, e, params)
+			},
+			Call: func(ctx *runtimev2.Task, e *ast.CallExpr) *errchain.PlError {
+				for i := range params {
+					v, err := runtimev2.GetParam(ctx, e, params, i)
+					if err != nil {
+						return err
+					}
+					if v == nil && params[i].Variable {
+						v = []any{}
+					}
+					*rec = append(*rec, probe.Render(v))
+				}
+				return nil
+			},
+		}
+	}
+	p1s := [][]pdef{{{req, "a"}, {opt, "b"}}, {{req, "a"}, {req, "b"}, {opt, "c"}}, {{req, "a"}, {opt, "b"}, {opt, "c"}}}
+	p2s := [][]pdef{{{req, "z"}}, {{req, "b"}}, {{req, "a"}}, {{req, "z"}, {req, "y"}}, {{opt, "b"}, {opt, "a"}}, {}}
+	calls := [][]arg{{{Name: "a", Val: 1}}, {{Val: 1}, {Name: "b", Val: 2}}, {{Name: "b", Val: 2}, {Name: "a", Val: 1}}, {{Val: 1}}, {{Val: 1}, {Val: 2}}}
+	n := 0
+	for _, l1 := range p1s {
+		for _, call := range calls {
+			want, ok := refBind(l1, call)
+			if !ok {
+				continue
+			}
+			for _, l2 := range p2s {
+				if _, accepted := refBind(l2, call); accepted {
+					continue // a second check that accepts the call binds it anew: the host asked for that
+				}
+				var rec []string
+				src := callText(call)
+				rp := replay{Sig: sigText(l1) + ", checked again against " + sigText(l2), Call: src, Src: src}
+				s, err, crash := impl.LoadV2("c19.p", src, map[string]*runtimev2.Fn{"f": mkFn(l1, &rec)})
+				if err != nil || crash != nil {
+					rk.Fail(t, "recheck", rp, "a bindable call was refused: %v %v", err, crash)
+				}
+				run := func(when string) {
+					rec = nil
+					if rerr, crash := impl.RunV2(s, nil); rerr != nil || crash != nil {
+						rk.Fail(t, "recheck", rp, "%s: run failed: %v %v", when, rerr, crash)
+					}
+					if strings.Join(rec, " | ") != strings.Join(want, " | ") {
+						rk.Fail(t, "recheck", rp, "%s: parameters received [%s], want [%s]", when, strings.Join(rec, " | "), strings.Join(want, " | "))
+					}
+				}
+				run("first run")
+				var rec2 []string
+				other := &runtimev2.Script{Name: "c19.p", Stmts: s.Stmts, Fn: map[string]*runtimev2.Fn{"f": mkFn(l2, &rec2)}}
+				func() {
+					defer func() { _ = recover() }()
+					_ = other.Check()
+				}()
+				run("after the same statements were checked against another signature")
+				evid.Case("recheck/"+rp.Sig+" <- "+src, true, "recheck-against-other-signature")
+				n++
+			}
+		}
+	}
+	evid.Exhaustive("signature at load x call x signature of the second check", n)
+}
+
 func TestManyParameters(t *testing.T) {
 	n := 0
 	for _, np := range []int{8, 15, 16, 17, 31, 32, 33, 63, 64, 65, 100} {
@@ -1159,6 +1231,70 @@ func TestManyParameters(t *testing.T) {
 }
 
 // TestTypedGetters: each typed getter with well- and ill-typed arguments.
+// TestTypedGettersOnDefaults: a declared default of a narrower Go number kind reaches the typed getter as the number
+// it is: the float64 that equals the float32 exactly, the int64 that equals the int / uint32.
+func TestTypedGettersOnDefaults(t *testing.T) {
+	n := 0
+	f32s := []float32{0.1, 1.0 / 3.0, 5e-7, 1e21, math.MaxFloat32, math.SmallestNonzeroFloat32, 1.5, 0.25, -2, 65536, 16777217, float32(math.Inf(1)), -0.0}
+	for _, f := range f32s {
+		f := f
+		params := []*runtimev2.Param{{Name: "x", Val: func() any { return f }}}
+		var got float64
+		var gerr *errchain.PlError
+		fn := &runtimev2.Fn{
+			CallCheck: func(ctx *runtimev2.Task, e *ast.CallExpr) *errchain.PlError {
+				return runtimev2.CheckPassParam(ctx, e, params)
+			},
+			Call: func(ctx *runtimev2.Task, e *ast.CallExpr) *errchain.PlError {
+				got, gerr = runtimev2.GetParamFloat(ctx, e, params, 0)
+				return gerr
+			},
+		}
+		rp := replay{Sig: fmt.Sprintf("f(?x = float32(%v)) read with GetParamFloat", f), Call: "f()", Src: "f()"}
+		s, err, crash := impl.LoadV2("c19.p", "f()", map[string]*runtimev2.Fn{"f": fn})
+		if err != nil || crash != nil {
+			rk.Fail(t, "getters-defaults", rp, "harness: %v %v", err, crash)
+		}
+		if rerr, crash := impl.RunV2(s, nil); rerr != nil || crash != nil {
+			rk.Fail(t, "getters-defaults", rp, "run failed: %v %v", rerr, crash)
+		}
+		if math.Float64bits(got) != math.Float64bits(float64(f)) {
+			rk.Fail(t, "getters-defaults", rp, "GetParamFloat returned %v (bits %x), the declared default float32(%v) is exactly %v (bits %x)", got, math.Float64bits(got), f, float64(f), math.Float64bits(float64(f)))
+		}
+		evid.Case(rp.Sig, true, "typed-getter-on-default")
+		n++
+	}
+	for _, v := range []any{int(7), int(-9007199254740993), uint32(4294967295), int64(9223372036854775807)} {
+		v := v
+		params := []*runtimev2.Param{{Name: "x", Val: func() any { return v }}}
+		var got int64
+		fn := &runtimev2.Fn{
+			CallCheck: func(ctx *runtimev2.Task, e *ast.CallExpr) *errchain.PlError {
+				return runtimev2.CheckPassParam(ctx, e, params)
+			},
+			Call: func(ctx *runtimev2.Task, e *ast.CallExpr) *errchain.PlError {
+				var gerr *errchain.PlError
+				got, gerr = runtimev2.GetParamInt(ctx, e, params, 0)
+				return gerr
+			},
+		}
+		rp := replay{Sig: fmt.Sprintf("f(?x = %T(%v)) read with GetParamInt", v, v), Call: "f()", Src: "f()"}
+		s, err, crash := impl.LoadV2("c19.p", "f()", map[string]*runtimev2.Fn{"f": fn})
+		if err != nil || crash != nil {
+			rk.Fail(t, "getters-defaults", rp, "harness: %v %v", err, crash)
+		}
+		if rerr, crash := impl.RunV2(s, nil); rerr != nil || crash != nil {
+			rk.Fail(t, "getters-defaults", rp, "run failed: %v %v", rerr, crash)
+		}
+		if fmt.Sprint(got) != fmt.Sprint(v) {
+			rk.Fail(t, "getters-defaults", rp, "GetParamInt returned %d, the declared default is %v", got, v)
+		}
+		evid.Case(rp.Sig, true, "typed-getter-on-default")
+		n++
+	}
+	evid.Exhaustive("declared default of a narrower number kind x typed getter", n)
+}
+
 func TestTypedGetters(t *testing.T) {
 	params := []*runtimev2.Param{{Name: "v"}}
 	values := []string{"5", "1.5", "true", `"s"`, "[1, 2]", `{"k": 1}`, "nil"}
